@@ -241,6 +241,42 @@ func runC04(c *Ctx, _ []string) {
 	n := 45 * c.Scale
 	c.Stats["samples"] = []any{}
 	nontrivial := 0
+	// fixed corpus: blocks above the 256 KiB floor of the writer's input buffers with chains whose worst case exceeds
+	// the buffer (tasks enlarge their input buffers), 3+ blocks per batch
+	for ci, fx := range []struct {
+		cfg   sCfg
+		shape string
+		size  int
+	}{{sCfg{"TEXT+UTF+EXE+PACK+MM+ROLZ", "NONE", 262144, 1, 32, 0, false}, "mm", 1200000},
+		{sCfg{"EXE+LZ", "HUFFMAN", 524288, 1, 0, 0, false}, "exe", 1700000},
+		{sCfg{"EXE+RLT+TEXT+UTF+DNA", "NONE", 262144, 1, 0, 1000000, false}, "text", 1000000}} {
+		data := mkData(fx.shape, fx.size, uint64(ci)+7)
+		ref, stage, err := compress(fx.cfg, data, nil)
+		if stage != "" || err != nil {
+			continue
+		}
+		nontrivial++
+		for _, j := range []uint{3, 4, 8} {
+			for _, perturb := range []bool{false, true} {
+				c2 := fx.cfg
+				c2.Jobs = j
+				var undo func()
+				if perturb {
+					undo = installPerturb(r.U64())
+				}
+				out, _, err := compress(c2, data, nil)
+				if undo != nil {
+					undo()
+				}
+				c.Count("evaluations", 1)
+				c.Hist("variant", "large-block corpus")
+				if err != nil || !bytes.Equal(out, ref) {
+					c.Violation(map[string]any{"cfg": fx.cfg.String(), "data": describe(fx.shape, fx.size, uint64(ci)+7),
+						"what": fmt.Sprintf("output differs from the jobs=1 reference (jobs=%d, perturbed=%v): %s vs %s err=%v", j, perturb, short(out), short(ref), err)})
+				}
+			}
+		}
+	}
 	for i := 0; i < n; i++ {
 		cfg := randCfg(r, false)
 		cfg.Jobs = 1
